@@ -85,8 +85,9 @@ var props = map[string]propInfo{
 
 // alsoWorld: a second world in which a slice of the workers decides a further
 // clause of the property (C13: the verdict clause for validations made while
-// other callers are inside the library).
-var alsoWorld = map[string]string{"C13": "A"}
+// other callers are inside the library; C02 C03 C04 C06: the answer to a call
+// does not depend on other callers).
+var alsoWorld = map[string]string{"C13": "A", "C02": "A", "C03": "A", "C04": "A", "C06": "A"}
 
 type worldInfo struct {
 	Pkg     string // package dir inside the scratch repo
